@@ -144,7 +144,7 @@ def forest_check(prop, tier, seed):
     # 1. L1 model checking: the specification's own invariants
     cfgname = write_cfg(f"gen_{prop}_mc.cfg", FOREST_CFG.format(
         maxnode=3 if quick else 4, names="Names1" if quick else "Names2", texts="TextsXS", maxtext=2, dump="FALSE",
-        invs="Valid RefusalsAreStutters Total RiwIdempotent FrameHolds", props="PROPERTY StableIds"))
+        invs="Valid RefusalsAreStutters Total RiwIdempotent FrameHolds L2MovesRefine", props="PROPERTY StableIds"))
     r_mc = mc("MCForest.tla", cfgname, workers=12, timeout=3000, tag=prop + "_mc", xmx="16g")
     os.remove(os.path.join(vlib.SPEC, cfgname))
     mcs.append(r_mc)
@@ -258,7 +258,7 @@ def forest_check(prop, tier, seed):
         "distinct_nontrivial": len(classes),
         "rule": "events are public calls executed on the real crate and judged by TLC against L1; distinct = distinct (operation, result, kinds of the node arguments, structural relation between the two node arguments) classes observed",
         "samples": samples, "exhaustive": False,
-        "l1_model": {"maxnode": 3 if quick else 4, "distinct_states": r_mc["distinct"], "invariants": ["Valid", "RefusalsAreStutters", "Total", "RiwIdempotent", "FrameHolds", "StableIds"]},
+        "l1_model": {"maxnode": 3 if quick else 4, "distinct_states": r_mc["distinct"], "invariants": ["Valid", "RefusalsAreStutters", "Total", "RiwIdempotent", "FrameHolds", "L2MovesRefine", "StableIds"]},
         "replayed_states": nreplayed, "events": events, "drive_episodes": episodes, "drive_profile": profile or "mixed",
         "rejections_charged_to_other_properties": notes,
     }
@@ -292,7 +292,7 @@ CHECK_DEADLOCK FALSE
 """
 SCOPE3_CFG = "SPECIFICATION Spec\nCONSTANT Dump = TRUE\nINVARIANTS ValidLayout ResolutionIsFunction DumpState {l2}\nCHECK_DEADLOCK FALSE\n"
 # L2 transcriptions of the crate's namespace machinery (XotNsL2) compared with L1 on every layout, by property
-L2NS = {"C09": "L2Scope L2Unres", "C10": "L2Ser L2CmpInv", "C15": "L2DedupInv", "C12": "L2Scope L2Unres", "C01": "L2Ser", "C14": "L2Ser"}
+L2NS = {"C09": "L2Scope L2Unres", "C10": "L2Ser L2CmpInv RT", "C15": "L2DedupInv", "C12": "L2Scope L2Unres", "C01": "L2Ser RT", "C14": "L2Ser RT"}
 
 
 def scope_cfg(prop):
@@ -307,7 +307,7 @@ CONSTANTS
   Uris = {{"u1"}}
   MaxText = 2
   Dump = FALSE
-INVARIANTS Valid LawsHold FollowingPrecedingConverse TraverseConsistent AllVariantsExtendPlain LevelOrderIsPermutation StringValueCompositional EqualityLaws EventLaws
+INVARIANTS Valid LawsHold FollowingPrecedingConverse TraverseConsistent AllVariantsExtendPlain LevelOrderIsPermutation StringValueCompositional EqualityLaws EventLaws L2AxesRefine
 CONSTRAINT TextBound
 CHECK_DEADLOCK FALSE
 """
@@ -345,6 +345,14 @@ def observer_check(prop, tier, seed):
             L = live_ids(st)
             pairs = [[a, b] for a in L for b in L] if prop == "C13" else []
             jobs.append({"st": st, "what": what, "pfx": PFX, "uris": URIS, "pairs": pairs, "ign": IGN})
+            nsmall += 1
+    if prop == "C07":
+        # every ordered tree shape with up to 7 nodes (depth the 4-id forests cannot have), laws + iterator transcriptions
+        shapes, r_sh = dump_states("MCShape.tla", "SPECIFICATION Spec\nCONSTANTS\n  MaxN = %d\n  Dump = TRUE\nINVARIANTS ValidShape L2AxesRefine LawsHold FollowingPrecedingConverse TraverseConsistent LevelOrderIsPermutation DocOrderTotal DumpState\nCHECK_DEADLOCK FALSE\n" % (7 if quick else 8), prop + "_shape")
+        mcs.append(r_sh)
+        rnd.shuffle(shapes)
+        for st in shapes[: (300 if quick else 5000)]:
+            jobs.append({"st": st, "what": what, "pfx": PFX, "uris": URIS, "pairs": [], "ign": []})
             nsmall += 1
     if prop == "C09":
         layouts, r_sc = dump_states("MCScope.tla", scope_cfg(prop), prop + "_scope")
@@ -535,6 +543,8 @@ def parser_jobs(prop, tier, seed):
             label = rnd.choice(["ISO-8859-1", "iso-8859-1", "windows-1252"])
             try:
                 ltoks = X.render_doc(ldoc, ch, "doc", encoding=label)
+                if any(c > 255 for c in X.text_of(ltoks)):
+                    raise ValueError("not expressible in a single-byte encoding (a prefix or name outside Latin-1)")
                 j = {"mode": "doc", "text": X.text_of(ltoks), "toks": ltoks, "hastoks": True, "expectwf": "yes", "dmg": "", "encs": ["latin1"], "idq": [X.cps("nope")], "strskip": False}
                 jobs.append(j)
                 counts["random"] += 1
@@ -651,7 +661,7 @@ CONSTANTS
   AttrMaxLen = {attrmax}
   Alphabet = {alphabet}
   Dump = TRUE
-INVARIANTS InDomainAlways DumpState
+INVARIANTS InDomainAlways DumpState RT
 CHECK_DEADLOCK FALSE
 """
 
@@ -898,6 +908,12 @@ def html_check(prop, tier, seed):
         for r in roots:
             jobs.append({"st": st, "root": r, "indent": k % 3 == 0, "suppress": sup_opts[k % 3] if k % 3 == 0 else [], "cdata": cd_opts[(k // 3) % 3]})
             counts["enumerated"] += 1
+    # the namespace bookkeeping layouts (scopes pushed for an element must be popped before its sibling is written)
+    nsl, r_ns = dump_states("MCHtmlNs.tla", "SPECIFICATION Spec\nCONSTANTS\n  Dump = TRUE\nINVARIANTS ValidInput DumpState\nCHECK_DEADLOCK FALSE\n", "C19_htmlns")
+    rnd.shuffle(nsl)
+    for k, st in enumerate(nsl[: (2500 if quick else 12000)]):
+        jobs.append({"st": st, "root": 1, "indent": k % 5 == 0, "suppress": [], "cdata": []})
+        counts["enumerated"] += 1
     # random trees over HTML names in any case, all namespaces, any text / attribute content, PIs with and without '>'
     for k in range(1500 if quick else 20000):
         f, roots = gen.random_forest(rnd, rnd.choice([3, 6, 10, 16]), shape="mixed", nsrich=(k % 4 == 0), trees=1)
@@ -908,9 +924,12 @@ def html_check(prop, tier, seed):
                 if nd["ln"].lower() in ("script", "style") and nd["ns"] not in ("", "http://www.w3.org/1999/xhtml"):
                     nd["ns"] = ""
             if nd["k"] == "text":
-                nd["t"] = [rnd.choice([120, 60, 38, 62, 34, 39, 160, 32, 233, 123, 59, 35]) for _ in range(rnd.randrange(1, 5))]
+                nd["t"] = [c for _ in range(rnd.randrange(1, 5))
+                           for c in gen.cps(rnd.choice(["x", "<", "&", ">", '"', "'", "\u00a0", " ", "\u00e9", "&{", "&#", "&amp;", "&lt", "</", "]]>", "{", ";", "#"]))]
             if nd["k"] == "attr" and nd["ns"] != gen.XMLNS:
-                nd["t"] = [rnd.choice([120, 60, 38, 62, 34, 39, 160, 38, 123, 59, 35]) for _ in range(rnd.randrange(0, 4))]
+                # values built from digraphs that matter to an HTML escaper (script macro, references with and without ';')
+                nd["t"] = [c for _ in range(rnd.randrange(0, 4))
+                           for c in gen.cps(rnd.choice(["x", "<", "&", ">", '"', "'", "\u00a0", "&{", "&{x}", "&#", "&#1;", "&amp;", "&amp", "&x;", "&&", "{", ";", "#"]))]
                 if rnd.random() < 0.2:
                     nd["ln"], nd["t"] = "checked", gen.cps(rnd.choice(["checked", "CHECKED"]))
             if nd["k"] == "pi":
@@ -986,7 +1005,7 @@ def html_check(prop, tier, seed):
     kf = {f["id"]: f for f in vlib.load_known()}
     known_lines = [f"{kid} ({cnt} events): {kf.get(kid, {}).get('what', '')}" for kid, cnt in sorted(known.items())]
     distinct = len({json.dumps(j["st"]["n"]) + str(j["root"]) for j in jobs})
-    cov = {"states": r_g["distinct"], "transitions": r_g["generated"], "traces_validated_against_impl": len(jobs), "evaluations": len(jobs),
+    cov = {"states": r_g["distinct"] + r_ns["distinct"], "transitions": r_g["generated"] + r_ns["generated"], "traces_validated_against_impl": len(jobs), "evaluations": len(jobs),
            "distinct_nontrivial": distinct,
            "rule": "one event per (forest, node, parameters): html5() serialisation under catch_unwind, output tokenised by an independent HTML tokenizer, rules judged by TLC; distinct = distinct (forest, node) pairs",
            "samples": [{"root": jobs[0]["root"], "indent": jobs[0]["indent"], "first_nodes": jobs[0]["st"]["n"][:4]}], "exhaustive": False, "inputs": counts}
